@@ -37,6 +37,9 @@ A1 == CHOOSE a \in Addrs : TRUE
 \* projection of the post-state -----------------------------------------------
 SrvAlive == [s \in 1..(nextSid' - 1) |-> s \in DOMAIN srv'[A1] /\ now' <= srv'[A1][s].exp]
 SrvPresent == [s \in 1..(nextSid' - 1) |-> s \in DOMAIN srv'[A1]]
+\* the expiry the lease mechanism defines (virtual time; -1 = not cached): the replayer reads
+\* SessionEntry.Expiration() back after every real step and compares
+SrvExp == [s \in 1..(nextSid' - 1) |-> IF s \in DOMAIN srv'[A1] THEN srv'[A1][s].exp ELSE -1]
 CliLook  == [s \in 1..(nextSid' - 1) |-> CliAliveOf(cli', now', s)]
 \* the generator runs the intended design (Bug = {}): Route(k) is then cli.map[k] for
 \* the keys whose session is still cached and alive; one pass over the map
@@ -44,7 +47,7 @@ LiveKeys == {k \in DOMAIN cli'.map : CliAliveOf(cli', now', cli'.map[k])}
 Routes   == {<<k[1], k[2], k[3], cli'.map[k]>> : k \in LiveKeys}
 Allowed  == {<<k[1], k[2], k[3], mayReuse'[k]>> : k \in DOMAIN mayReuse'}
 
-Log06 == hist' = Append(hist, [step |-> last', now |-> now', alive |-> SrvAlive, present |-> SrvPresent, recs |-> recs'])
+Log06 == hist' = Append(hist, [step |-> last', now |-> now', alive |-> SrvAlive, present |-> SrvPresent, exp |-> SrvExp, recs |-> recs'])
 Log07 == hist' = Append(hist, [step |-> last', look |-> CliLook, routes |-> Routes, allowed |-> Allowed,
                                gone |-> gone', brk |-> brk'])
 
@@ -98,5 +101,5 @@ GenView06 == <<core, last, phase>>
 Done == IF GenMode \in {"C06", "C06walk"} THEN phase = "done"
         ELSE IF GenMode = "C07walk" THEN Len(hist) = GenDepth   \* -simulate: only complete walks
         ELSE Len(hist) >= 1
-EmitTrace == Done => PrintT(ToJson([trace |-> [h |-> hist, triples |-> TripleSeq]]))
+EmitTrace == Done => PrintT(ToJson([trace |-> [h |-> hist, triples |-> TripleSeq, dur |-> Duration, lease |-> Lease]]))
 =============================================================================
